@@ -164,8 +164,7 @@ def _admissible(v, types):
         from symx.shim import pytype_of
         t = pytype_of(v)
         return any(issubclass(t, x) for x in types) and not (t is bool and bool not in types and int in types and False)
-    if isinstance(v, bool) and bool not in types:
-        return False
+    # (a bool is an instance of int: True in an Integer slot is a value of the declared native type)
     return isinstance(v, types)
 
 
@@ -345,3 +344,40 @@ def soap_header_slots(sx, p):
     """each slot of ctx.in_header holds None or an instance of the class declared for that slot, whichever headers
     the request carries"""
     return _h1._soap_headers(sx, p, types_only=True)
+
+
+# ---------------------------------------------------------------- every native kind in every slot, YAML and MessagePack
+# (C04 quantifies over validator soft / lxml; without a validator nothing is checked by design)
+KPROTS = {'yaml soft': YamlDocument(app=APP, validator='soft'), 'msgpack soft': MessagePackDocument(app=APP, validator='soft')}
+
+
+@harness('C04', params=[(pr, slot, kind) for pr in sorted(KPROTS) for slot in ('n', 's', 'flag', 'when', 'base', 'bases', 'other')
+                        for kind in KINDS + ['date', 'bytes']],
+         label=lambda p: '%s slot=%s kind=%s' % p,
+         functions=['spyne.protocol.dictdoc.hier.HierDictDocument._from_dict_value', 'spyne.protocol.msgpack.MessagePackDocument.integer_from_bytes'],
+         bounds={'document': 'one member of the object carries a value of each native kind of the format (null, boolean, integer, float, '
+                             'text, list, map, date, binary); payloads symbolic where the readers are Python'})
+def dictdoc_kinds(sx, p):
+    """YAML and MessagePack documents: whatever native kind a member carries, user code receives a value of the declared
+    native type (or None) or the request is refused"""
+    pr, slot, kind = p
+    prot = KPROTS[pr]
+    if kind == 'date':
+        v = datetime.date(2001, 2, 3)
+    elif kind == 'bytes':
+        v = sx.choose('vbytes', [b'', b'ab', b'\xff'])
+    else:
+        v = _value_of_kind(sx, kind, 'v')
+    doc = {'n': 1, 's': 'x', slot: v}
+    try:
+        out = run_soft(lambda: prot._doc_to_object(CTX, Holder, doc, prot.validator))
+    except Exception as e:
+        sx.outside('non-fault exception %s escapes (counted under C10)' % type(e).__name__)
+    sx.observe('accepted', out.accepted)
+    if not out.accepted:
+        return is_client_validation_fault(out.fault)
+    got = getattr(out.value, slot)
+    if slot == 'bases' and got is not None:
+        return isinstance(got, list) and all(x is None or isinstance(x, Base) for x in got)
+    adm = dict(ADMISSIBLE, other=(Other,))
+    return _admissible(got, adm[slot])
